@@ -67,6 +67,9 @@ type CandidateNode struct {
 	LineComment string
 	FootComment string
 
+	// set while explode reconstructs this map from its merge keys (guards against a merge of an ancestor)
+	exploding bool
+
 	Parent *CandidateNode // parent node
 	Key    *CandidateNode // node key, if this is a value from a map (or index in an array)
 
